@@ -26,20 +26,20 @@ package main
 //@   ensures result == nil || result == context.Canceled || result == context.DeadlineExceeded
 //@ iface Volume.Put
 //@   modifies nothing
-//@ func RRVolumeManager.AllReadable property C01,C06
+//@ func RRVolumeManager.AllReadable property C01,C06,C02
 //@   modifies nothing
 //@   ensures result == vm.readables
-//@ func RRVolumeManager.AllWritable property C01,C04
+//@ func RRVolumeManager.AllWritable property C01,C04,C02
 //@   modifies nothing
 //@   ensures result == vm.writables
 //@ func RRVolumeManager.NextWritable trusted
 //@   modifies RRVolumeManager.counter
 //@ pure ctxlog.FromContext
-//@ func contextForResponse property C01
+//@ func contextForResponse property C01,C02
 //@   modifies nothing
 //@ func getBufferWithContext trusted
 //@   modifies nothing
-//@ func bufferPool.Put property C01
+//@ func bufferPool.Put property C01,C02
 //@   modifies nothing
 
 // --------------------------------------------------------------------- C01
@@ -81,7 +81,7 @@ package main
 // succeeded, exactly buf[:size] with Content-Length size; with blob signing
 // enabled GetBlock is reached only after VerifySignature accepted the
 // request's locator for the request's token (C07).
-//@ func router.handleGET property C01,C07 safety -bounds
+//@ func router.handleGET property C01,C07,C02 safety -bounds
 //@   ghost verified bool = false
 //@   ghost tok string = ""
 //@   ghost got bool = false
@@ -202,7 +202,7 @@ package main
 // Touch: the timestamp is set by path, under the volume lock and the file lock
 // (so that a block renamed away by a concurrent Trash makes Touch fail), never
 // on a read-only volume; nil only if Chtimes returned nil.
-//@ func UnixVolume.Touch property C02,C04 safety -bounds
+//@ func UnixVolume.Touch property C02,C04,C01 safety -bounds
 //@   ghost vlocked bool = false
 //@   ghost flocked bool = false
 //@   ghost cherr error = nil
@@ -236,7 +236,7 @@ package main
 // set without error.  Every Remove names the temp file, never the block path.
 // The temp name starts with "tmp" and therefore can never be listed by IndexTo
 // (lemma tmpNamesNeverMatch).  No other effectful call is permitted.
-//@ func UnixVolume.WriteBlock property C02,C04 safety -bounds
+//@ func UnixVolume.WriteBlock property C02,C04,C01 safety -bounds
 //@   only calls: time.Now UnixVolume.IsFull UnixVolume.blockDir UnixVolume.blockPath os.MkdirAll osWithStats.TempFile UnixVolume.lock UnixVolume.unlock io.Copy os.File.Close os.Chtimes osWithStats.Rename osWithStats.Remove statsTicker.TickOutBytes statsTicker.TickOps statsTicker.Tick
 //@   ghost copied bool = false
 //@   ghost closed bool = false
@@ -289,7 +289,7 @@ package main
 // of the pipe is closed with the context's error (so that WriteBlock's reader
 // sees an error, never a clean EOF, and cannot rename a truncated temp file
 // into place); ctx.Err() is consulted at that point only on that branch.
-//@ func putWithPipe property C02
+//@ func putWithPipe property C02,C01
 //@   ghost sel int = 0 - 1
 //@   ghost cerr error = nil
 //@   at select#1: set sel = $index
@@ -300,7 +300,7 @@ package main
 // The copier goroutine only copies the buffer into the pipe.  The write end is
 // closed in one place only - putWithPipe, with the error that ended the wait -
 // so that an aborted PUT can never look like a clean end of data to WriteBlock.
-//@ func putWithPipe$1 property C02
+//@ func putWithPipe$1 property C02,C01
 //@   only calls: io.Copy bytes.NewReader
 
 // --------------------------------------------------------------------- C19
@@ -446,7 +446,7 @@ package main
 //@   modifies nothing
 //@ func UnixVolume.Get property C01,C02
 //@   calls getWithPipe#1: requires $1 == loc && $2 == buf && $3 == iface(v)
-//@ func UnixVolume.Put property C02
+//@ func UnixVolume.Put property C02,C01
 //@   calls putWithPipe#1: requires $1 == loc && $2 == block && $3 == iface(v)
 //@ func UnixVolume.stat property C01,C02
 //@   calls osWithStats.Stat#1: requires $0 == path
